@@ -106,6 +106,29 @@ def sampler_job(interp, c, case):
         _report(c, ok and g == _box_muller(c.draws[0], c.draws[1], pv["mu"], pv["sd"]),
                 "gaussian delay is Normal(mean, std) by Box-Muller on the reaction's own parameters")
         c.draws.clear()
+        # gamma delay: exactly one draw of gamma_rv with the reaction's own shape and scale (gamma_rv itself: jobs gamma1/gamma2)
+        Rm = interp.load("bioscrape.random")
+        calls = []
+        saved = {}
+
+        def mk_stub(name_):
+            def stub(*a_):
+                calls.append((name_,) + tuple(a_))
+                return c.real("%s_draw_%d" % (name_, len(calls)), lo=0)
+            return stub
+        for nm_ in list(Rm.ns):
+            if nm_.endswith("_rv") and not nm_.startswith("py_") and callable(Rm.ns[nm_]):
+                saved[nm_] = Rm.ns[nm_]
+                Rm.ns[nm_] = mk_stub(nm_)
+        try:
+            gd = itf.compute_delay(ptr(interp, st), 2)
+        finally:
+            Rm.ns.update(saved)
+        ok = _report(c, len(calls) == 1 and calls[0][0] == "gamma_rv" and len(c.draws) == 0 and is_sym(gd) and calls[0][1] == pv["kk"] and calls[0][2] == pv["th"],
+                     "gamma delay is one draw of gamma_rv(k, theta) with the reaction's own shape and scale (no other sampler)")
+        if ok is False:
+            c.failures[-1]["replay"] = {"kind": "gamma_delay"}
+        c.draws.clear()
         _report(c, itf.compute_delay(ptr(interp, st), 3) == 0, "a reaction without delay has delay 0")
         _report(c, M.has_delays() is True or M.has_delays() == 1, "the model reports that it has delays")
         dl = M.get_delays()
